@@ -210,6 +210,21 @@ pub fn c06_tt(c: &mut Ctx, a: W, b: W) {
     if eq_ab != (ab.6 == Some(Ordering::Equal)) || eq_ba != (ba.6 == Some(Ordering::Equal)) {
         c.viol("eq/TF,TF", "eq_vs_partial_cmp", &ins, &[eq_ab as u64, ord_code(ab.6), eq_ba as u64, ord_code(ba.6)], "== disagrees with partial_cmp == Some(Equal)".into());
     }
+    if va != vb {
+        // min/max skip the invalid operand (whatever makes it invalid: overlap, infinity, NaN word)
+        let good = if va { a } else { b };
+        for (nm, is_min) in [("min", true), ("max", false)] {
+            match guard(|| w(if is_min { ta.min(tb) } else { ta.max(tb) })) {
+                Err(m) => c.viol(nm, "panic", &ins, &[], m),
+                Ok(r) => {
+                    if !(hx(r.0) == hx(good.0) && hx(r.1) == hx(good.1)) {
+                        c.viol(nm, "invalid_not_skipped", &ins, &outs(r), "an invalid operand must be skipped".into());
+                    }
+                }
+            }
+        }
+        c.count("valid_vs_invalid_pairs");
+    }
     if has_nan(a) || has_nan(b) {
         c.count("nan_operand_pairs");
         let e = expect_rels(None);
@@ -244,20 +259,6 @@ pub fn c06_tt(c: &mut Ctx, a: W, b: W) {
                 }
             }
         }
-    } else if va != vb {
-        // min/max skip the invalid operand
-        let good = if va { a } else { b };
-        for (nm, is_min) in [("min", true), ("max", false)] {
-            match guard(|| w(if is_min { ta.min(tb) } else { ta.max(tb) })) {
-                Err(m) => c.viol(nm, "panic", &ins, &[], m),
-                Ok(r) => {
-                    if !(hx(r.0) == hx(good.0) && hx(r.1) == hx(good.1)) {
-                        c.viol(nm, "invalid_not_skipped", &ins, &outs(r), "an invalid operand must be skipped".into());
-                    }
-                }
-            }
-        }
-        c.count("valid_vs_invalid_pairs");
     }
 }
 
